@@ -86,30 +86,33 @@ func NewWordList(list []string) (*WordList, error) {
 		}
 	}
 
-	// A second pass to find out how many words have distinct capitalizations
-	// This also treats "Polish" and "polish" as duplicates, and will
+	// A second pass treats "Polish" and "polish" as duplicates, and will
 	// remove the Capitalized one from the list
 	//
 	// This pass also assumes that everything in unique is "true"
-	unCapable := 0
 	for w := range unique {
 		if unique[w] { // it may have been deleted since range was computed
 			cap := strings.Title(w)
 			if unique[cap] {
 				if cap != w { // w is "polish"
 					delete(unique, cap) // delete won't change what is in range
-				} else {
-					unCapable++
 				}
 			}
 		}
 	}
 
 	// third pass, because life sucks
+	// This is also where we find out how many words have no distinct
+	// capitalization. Counting during the second pass made the count depend on
+	// map iteration order: "Polish" was counted if it was visited before
+	// "polish" caused its removal.
+	unCapable := 0
 	var ourWords []string
 	for w := range unique {
 		ourWords = append(ourWords, w)
-
+		if strings.Title(w) == w {
+			unCapable++
+		}
 	}
 
 	if len(list) > len(ourWords) {
